@@ -1680,7 +1680,7 @@ class TrackSpecificationReader:
                         f"'parallel' element in challenge '{challenge_name}'."
                     )
 
-        if completed_by:
+        if completed_by is not None:
             has_completion_task = False
             for task in tasks:
                 if task.completes_parent and not has_completion_task:
